@@ -474,6 +474,7 @@ const (
 type v20WatchSender struct {
 	done     atomic.Bool // the watcher function returned
 	panicked atomic.Bool
+	msg      atomic.Value // recovered panic value
 }
 
 type v20Sender struct {
@@ -503,6 +504,9 @@ type v20Hist struct {
 	liveGen   int // generation of the running service (-1 none)
 
 	fatalUsed map[int]int
+
+	closeRegion  bool // this history may keep a provider goroutine blocked in the watcher function while a stop event is around (finding C20-WATCH-SEND-ON-CLOSED)
+	senderPanics int
 
 	labels  []string
 	samples []string
@@ -777,7 +781,8 @@ func (h *v20Hist) injWatch(e bool) {
 	ws := &v20WatchSender{}
 	go func() {
 		defer func() {
-			if recover() != nil {
+			if r := recover(); r != nil {
+				ws.msg.Store(fmt.Sprint(r))
 				ws.panicked.Store(true)
 			}
 			ws.done.Store(true)
@@ -809,9 +814,27 @@ func (h *v20Hist) injWatch(e bool) {
 // a notification sent while another one is pending must stay pending (its sender blocked) until Run
 // has received the first: a sender that has returned while Run is parked was dropped.
 func (h *v20Hist) checkWatchSenders() {
+	if h.pc == v20PcFinal && len(h.watchS) >= 2 {
+		// shutdown() has begun: Resolver.Shutdown closed the watcher channel before the gate.  A
+		// provider goroutine that was still blocked sending its notification panics there.
+		for i := len(h.watchS) - 1; i >= 1; i-- {
+			ws := h.watchS[i]
+			for t0 := time.Now(); !ws.done.Load() && time.Since(t0) < 3*time.Second; {
+				time.Sleep(100 * time.Microsecond)
+			}
+			if ws.panicked.Load() {
+				msg, _ := ws.msg.Load().(string)
+				h.senderPanics++
+				h.stats["watch_sender_panics"]++
+				h.fail("watch-sender-panics", fmt.Sprintf("provider goroutine blocked in the watcher function at=resolver-shutdown pending=%d state=%s: %s", len(h.watchS), h.w.col.GetState(), msg))
+				h.watchQ, h.watchS = h.watchQ[:i], h.watchS[:i]
+			}
+		}
+	}
 	for i, ws := range h.watchS {
 		if ws.panicked.Load() {
-			h.fail("watch-sender-panics", "the watcher function panicked in the provider's goroutine")
+			msg, _ := ws.msg.Load().(string)
+			h.fail("watch-sender-panics", "unexpected: the watcher function panicked in the provider's goroutine: "+msg)
 		}
 		if i >= 1 && ws.done.Load() && !ws.panicked.Load() {
 			h.fail("watch-notification-lost", fmt.Sprintf("notification #%d (error=%v) sent while another was pending returned without Run having received anything: it was dropped", i, h.watchQ[i]))
@@ -953,6 +976,19 @@ func v20RandGen(r *vRand, first bool) v20Gen {
 	return g
 }
 
+// Witnesses of the Coq refutations (Proofs3.panic_history, refute_history), replayed on every run.
+// Which ready branch the select takes is Go's choice: the shutdown channel must win against the
+// pending change for the panic to happen, so the script is repeated.
+var v20Scripts = func() [][]string {
+	panicW := []string{"run", "change", "watch-error", "shutdown", "run", "run"}
+	deadlockW := []string{"run", "run", "fatal", "fatal", "run"}
+	var l [][]string
+	for i := 0; i < 10; i++ {
+		l = append(l, panicW)
+	}
+	return append(l, deadlockW, deadlockW)
+}()
+
 type v20Result struct {
 	term       string
 	nontrivial bool
@@ -975,9 +1011,53 @@ func v20RunHistory(idx int) v20Result {
 	defer h.cancel()
 
 	maxLabels := 8 + r.Intn(18)
+	h.closeRegion = r.Intn(100) < 10
 	fatalBudget := 0
 	if r.Intn(100) < 9 { // histories that may enter the known-finding region (blocked fatal sender)
 		fatalBudget = 1 + r.Intn(2)
+	}
+	// replay of the recorded witnesses on the implementation: the first histories follow a script
+	// (afterwards the history is brought to its end like any other)
+	if idx < len(v20Scripts) {
+		for g := range w.gens {
+			w.gens[g] = v20Gen{nExt: 1, nProc: 1}
+		}
+		h.closeRegion, fatalBudget, maxLabels = true, 2, 0
+		for _, op := range v20Scripts[idx] {
+			if h.pc == v20PcStuck || h.pc == v20PcDone {
+				break
+			}
+			switch op {
+			case "run":
+				switch h.pc {
+				case v20PcInit:
+					h.started = true
+					go func() {
+						h.runErr = col.Run(h.ctx)
+						close(h.runDone)
+					}()
+					h.follow(v20PcInit)
+				case v20PcSetup, v20PcReload, v20PcFinal:
+					from := h.pc
+					h.releaseGate()
+					h.follow(from)
+				}
+			case "change":
+				h.injWatch(false)
+			case "watch-error":
+				h.injWatch(true)
+			case "shutdown":
+				h.shutdownCalls(1)
+			case "sighup":
+				h.injSig(0)
+			case "fatal":
+				h.injAsync(true)
+			}
+			if h.pc == v20PcIdle && h.pending() {
+				h.follow(v20PcIdle)
+			}
+		}
+		h.stats["scripted"]++
 	}
 	steps := 0
 	for h.pc != v20PcStuck && steps < 200 {
@@ -1088,16 +1168,24 @@ func (h *v20Hist) inject(watchOK, liveSvc bool, fatalBudget *int) {
 		h.injAsync(true)
 		return
 	}
-	if len(h.watchQ) >= 2 {
+	if len(h.watchQ) >= 2 && h.closeRegion && !h.closed && !h.cancelled && r.Intn(100) < 50 {
+		if r.Bool() {
+			h.shutdownCalls(1)
+		} else {
+			h.doCancel()
+		}
+		return
+	}
+	if len(h.watchQ) >= 2 && !h.closeRegion {
 		h.injSig(0) // with a provider goroutine blocked behind a pending change only reload requests are added (see NOTES)
 		return
 	}
 	// a second notification right behind a pending plain change (back-to-back notifications of a
 	// provider while Run is busy), only when no stop event is around
-	if watchOK && len(h.watchQ) == 1 && !h.watchQ[0] && h.pc != v20PcIdle && !h.closed && !h.cancelled && len(h.asyncQ) == 0 && r.Intn(100) < 80 {
-		term := false
+	if watchOK && len(h.watchQ) == 1 && !h.watchQ[0] && h.pc != v20PcIdle && (h.closeRegion || (!h.closed && !h.cancelled && len(h.asyncQ) == 0)) && r.Intn(100) < 80 {
+		term := h.closeRegion && false
 		for _, x := range h.sigQ {
-			term = term || x != 0
+			term = term || (x != 0 && !h.closeRegion)
 		}
 		if !term {
 			h.injWatch(r.Intn(100) < 60)
@@ -1300,6 +1388,7 @@ func (h *v20Hist) finish() v20Result {
 	if returned {
 		ret = v20ErrClass(h.runErr)
 		h.stats[fmt.Sprintf("ret_%d", ret)]++
+		ret += 100 * h.senderPanics // provider goroutines that panicked when the resolver closed the watcher channel
 	} else {
 		h.stats["ret_never"]++
 	}
